@@ -3,9 +3,11 @@ import checker_cluster as K
 import ctor_cluster as T
 import elab_cluster as E
 import gen_checker as G
+import gen_run
+import run_cluster as R
 
 PROP = "C03"
-CONE = sorted(set(K.MODEL_FILES + E.MODEL_FILES + T.MODEL_FILES + ["Proofs/CtorProofs.v", "Gen/Generated.v", "Proofs/SkelPinInv.v", "Proofs/CheckerFrame.v",
+CONE = sorted(set(K.MODEL_FILES + E.MODEL_FILES + R.MODEL_FILES + T.MODEL_FILES + ["Proofs/CtorProofs.v", "Gen/Generated.v", "Proofs/SkelPinInv.v", "Proofs/CheckerFrame.v",
                                                      "Proofs/ElabSelect.v", "Props/C03.v"]))
 RULE_E = ("member selection: definition histories as for C17 (classes with / without DBC, single and multiple bases, "
           "members f/g/p/__init__/__new__/__setattr__/_priv/__repr__/__eq__ of every kind, invariants with check_on "
@@ -27,14 +29,34 @@ def gen_with_invs(rng, n):
     return out
 
 
+RULE_R = ("programs of contracted functions and classes with invariants whose conditions, captures, bodies and methods call "
+          "each other, half of them coroutine functions / async methods driven by hand, user exceptions and cancellation "
+          "injected at await points (the generator of C11): every operation shows exactly the contract evaluations the "
+          "stack rule prescribes - nested and recursive calls are checked, an earlier outcome never switches checking off "
+          "(spec_C11).")
+
+
+def gen_run_cases(rng, n):
+    cases = []
+    for i in range(n):
+        g = gen_run.GenRun(rng, is_async=(i % 2 == 1), faults=0.1, awaits=0.5)
+        c = g.case()
+        if gen_run.small_enough(c):
+            cases.append(c)
+    return cases
+
+
 def run(tier, replay=None):
     out, build, problems = K.begin(PROP, tier, CONE, "Props/C03.v")
     rp = __import__("json").load(open(replay)).get("case", {}) if replay else {}
-    is_elab_replay = "ops" in rp
+    is_run_replay = "prog" in rp
+    is_elab_replay = "ops" in rp and not is_run_replay
     is_ctor_replay = "chain" in rp
+    if not replay or is_run_replay:
+        R.run_into(out, build, problems, PROP, tier, "spec_C11", gen_run_cases, 500, 12000, RULE_R, replay=replay)
     if not replay or is_ctor_replay:
         T.run_into(out, build, problems, PROP, tier, replay=replay)
-    if not replay or not (is_elab_replay or is_ctor_replay):
+    if not replay or not (is_elab_replay or is_ctor_replay or is_run_replay):
         K.run_into(out, build, problems, PROP, tier, ["spec_C16", "spec_C09"], gen_with_invs, 800, 15000, RULE_C, replay=replay)
     if not replay or is_elab_replay:
         E.run(out, build, problems, PROP, tier, ["spec_C03_selection"], E.default_gen, 600, 10000, RULE_E, replay=replay,
